@@ -108,6 +108,12 @@ CHECKS["C01"] = dict(
     note="DDA (adda) absent. Quick: 260 requests, all sequences of length <= 2 and 90 of length 3; thorough: 4000 requests, all 1463 sequences.",
     ref="5 C01")
 
+CHECKS["C16"] = dict(
+    technique="TLA+ spec ImageIO.tla (abstract images and the I/O / metadata operations, state merging on cycles and on file multisets) model-checked by TLC; sampled behaviours replayed on real files",
+    text="TLC enumerates 8320 abstract images (5 shapes incl. 1x1 and 1x6, 4 dtypes, 1-3 channels, named or not, each of the four metadata keys None / scalar / per-channel dictionary / per-channel labelled array) with up to three HDF5 save-load cycles (identity), single-channel images through TIFF at the documented depths (values within half a quantisation step computed from the usable bits; metadata, spacing, name kept), metadata updates over all 15 key subsets (only named keys change, polarisation normalised, original untouched, new object), all push orders of file multisets of size 2-4 for load_average (exact mean, relative noise, coordinates, order independence; cropping to a reference image with anisotropic pixels), and raster loading with anisotropic spacing and channel selection (pixel (i,j) at (i s_x, j s_y), channel labels). Per-channel metadata is checked by label against what was given.",
+    note="Quick tier replays a factor-covering sample (about 190 images x 3 cycles, 120 TIFF, 250 updates, a quarter of the 4-file orders). TIFF: 1xN images have no spacing to store and depth 32 is undocumented: both outside the model.",
+    ref="5 C16")
+
 NOT_APPLICABLE = []
 
 
